@@ -196,7 +196,10 @@ def generate(rng, tier):
     hdrs = ["bytes=0-0", "bytes=2-4", "bytes=-3", "bytes=5-", "bytes=0-1,4-5", "bytes=9-2", "bytes=9-2,1-1",
             "bytes=", "bytes=-", "bytes=--", "bytes=1-2-3", "lines=1-2", "bytes=1-2=3", "nothing",
             "bytes=a-b", "bytes=12a-3", "bytes=0-,", "bytes=,0-1", "bytes= 0-1", "bytes=0 -1", "bytes=-0",
-            "bytes=99-", "bytes=10-", "bytes=9-", "bytes=0-99", "bytes=00-01", "BYTES=0-1", "bytes=1-1,1-1,2-2"]
+            "bytes=99-", "bytes=10-", "bytes=9-", "bytes=0-99", "bytes=00-01", "BYTES=0-1", "bytes=1-1,1-1,2-2",
+            # optional white space around the commas of the list and at its end (RFC 9110 5.6.1)
+            "bytes=2-4 , 0-1", "bytes=2-4 ,0-1", "bytes=2-4\t,\t0-1", "bytes=2-4 ", "bytes=-3 , 0-1", "bytes=5- , 0-1",
+            "bytes=0-0 ,9-9", "bytes=2-4\t"]
     for h in hdrs:
         for L in (0, 1, 10):
             cases.append("C07 hdr %s %s" % (hx(body_of(L, 4)), hx(h)))
@@ -208,7 +211,7 @@ def generate(rng, tier):
             a = rng.choice(["", str(rng.randrange(0, 14))])
             b = rng.choice(["", str(rng.randrange(0, 14))])
             items.append(a + "-" + b)
-        sep = rng.choice([",", ", ", ",,"])
+        sep = rng.choice([",", ", ", ",,", " , ", " ,", "\t, "])
         h = rng.choice(["bytes=", "bytes=", "bytes =", "x="]) + sep.join(items)
         cases.append("C07 hdr %s %s" % (hx(body_of(10, 4)), hx(h)))
     return cases
@@ -465,12 +468,12 @@ def oracle(case):
 def lib_free_parse(hdr):
     """well-formed 'bytes=' range sets written by our generator -> pairs, else None"""
     import re
-    m = re.fullmatch(r"bytes=(\d*-\d*)(,\d*-\d*)*", hdr)
+    m = re.fullmatch(r"bytes=(\d*-\d*)([ \t]*,[ \t]*\d*-\d*)*[ \t]*", hdr)
     if not m:
         return None
     out = []
     for item in hdr[6:].split(","):
-        a, b = item.split("-")
+        a, b = item.strip(" \t").split("-")
         if not a and not b:
             return None
         out.append((int(a) if a else None, int(b) if b else None))
